@@ -54,6 +54,10 @@ func (t *T0x0102) Parse(jtMsg *jt808.JTMessage) error {
 		t.SoftwareVersion = string(data)
 	} else {
 		t.AuthCode = string(body)
+		// 复用时不保留上一次按2019版本解析的字段
+		t.AuthCodeLen = 0
+		t.TerminalIMEI = ""
+		t.SoftwareVersion = ""
 	}
 	return nil
 }
